@@ -254,7 +254,7 @@ theorem cleanupAll_inv (s : St) (h : Inv s) : Inv (cleanupAll s).1 := by
   unfold cleanupAll
   apply cleanupList_inv
   refine ⟨?_, h.le, ?_, h.ipLe, h.cf⟩
-  · have := h.conns; simp [allA] at this ⊢; omega
+  · have := h.conns; simp at this ⊢; omega
   · intro a; have := h.ip a; simp [tot] at this ⊢
     by_cases hg : s.cfg.perIp = 0 ∨ a = 0
     · simp [hg] at this ⊢; exact this
